@@ -156,6 +156,7 @@ func matchCondAny(pats string, c Cond) bool {
 type failBranch struct {
 	If   *ssa.If
 	Cond Cond // holds on the failing edge
+	Pol  bool // polarity of the If's condition on the failing edge
 }
 
 func failBranches(f *ir.Func) []failBranch {
@@ -188,9 +189,69 @@ func failBranchesOf(f *ir.Func) []failBranch {
 		if ft == fe {
 			continue
 		}
-		out = append(out, failBranch{iff, Normalize(f.Term(iff.Cond), ft)})
+		out = append(out, failBranch{iff, Normalize(f.Term(iff.Cond), ft), ft})
 	}
 	return out
+}
+
+// joinImpliesFail: the failing branch tests a join of boolean alternatives (`ok := a && b; if !ok { fail }`, the De
+// Morgan form of `if !a || !b`). Its failing-edge condition is expanded into a disjunction over the join's edges; the
+// branch fails whenever cond holds iff that disjunction, restricted to cond (disjuncts contradicting cond dropped,
+// cond and the facts common to all disjuncts removed), is valid.
+func joinImpliesFail(f *ir.Func, fb failBranch, cond string) bool {
+	if strings.Contains(cond, " | ") || strings.Contains(cond, " & ") || fb.If.Block().Parent() != f.Fn {
+		return false
+	}
+	dnf := expandCond(f, fb.If.Cond, fb.Pol, 0)
+	if len(dnf) < 2 {
+		return false
+	}
+	pc, npc := ParseCond(cond), ParseCond("not("+cond+")")
+	common := map[string]bool{}
+	for i, d := range dnf {
+		have := map[string]bool{}
+		for _, l := range d {
+			have[l.String()] = true
+		}
+		if i == 0 {
+			common = have
+			continue
+		}
+		for k := range common {
+			if !have[k] {
+				delete(common, k)
+			}
+		}
+	}
+	var resid [][]Cond
+	for _, d := range dnf {
+		if contradictory(d) {
+			continue
+		}
+		var r []Cond
+		contra := false
+		for _, l := range d {
+			if MatchCond(npc, l) {
+				contra = true
+			}
+			if MatchCond(pc, l) || common[l.String()] {
+				continue
+			}
+			r = append(r, l)
+		}
+		if !contra {
+			resid = append(resid, r)
+		}
+	}
+	if len(resid) == 0 {
+		return false
+	}
+	for _, d := range mergeDisjuncts(resid) {
+		if len(d) == 0 {
+			return true
+		}
+	}
+	return false
 }
 
 // GuardOpt tunes FailsWhen.
@@ -217,7 +278,7 @@ func (c *Ctx) FailsWhen(fnSpec, cond, desc string, opt GuardOpt) {
 	var seen []string
 	for _, fb := range fbs {
 		seen = append(seen, fb.Cond.String())
-		if !matchCondAny(cond, fb.Cond) {
+		if !matchCondAny(cond, fb.Cond) && !joinImpliesFail(f, fb, cond) {
 			continue
 		}
 		ok := true
